@@ -13,6 +13,7 @@ database dump unchanged and not a single SQL statement issued; a caller the text
 Correspondence: the verdict (401 / 403 / pass) computed by the Lean model `Pipeline.respond` over the generated tables
 (run with `lake env lean --run`) equals the observed one, for every cell of the matrix.
 """
+from harness import ppool
 import fcntl
 import json
 import multiprocessing
@@ -500,7 +501,7 @@ def _run(chk, scratch):
     tasks = [('gates', None, variants)] + [('table', t, variants) for t in tbls]
     nproc = min(16, os.cpu_count() or 4, len(tasks))
     ctx = multiprocessing.get_context('fork')
-    with ctx.Pool(nproc, initializer=_worker_init, initargs=(scratch,)) as pool:
+    with ppool.Pool(ctx, nproc, initializer=_worker_init, initargs=(scratch,)) as pool:
         results = pool.map(_run_table, tasks, chunksize=1)
     reqs_used = None
     for kind, table, res, used in results:
